@@ -179,6 +179,22 @@ theorem policy_eq_actor {strIn} (h : StrInOk strIn) (dense : L → V → V) (int
   rw [policy_mean_eq_mlp h, actor_mean_eq_mlp]
   simp only [actOf, activation_tables_agree]
 
+/-- No exception for the supported configurations: for each of the four activation names and every depth the forward pass
+returns a value (so the equalities above are not equalities between two failures). -/
+theorem policy_mean_defined {strIn} (h : StrInOk strIn) (dense : L → V → V) (interp : String → V → V) (name : String)
+    (hname : name ∈ ["relu", "tanh", "gelu", "softplus"]) (hidden : List L) (out : L) (ls : S) (x : V) :
+    ∃ act, actOf interp pa_act_table name = some act ∧
+      policyMean strIn dense interp name ⟨hidden ++ [out], ls⟩ x = some (mlp dense act hidden out x) := by
+  rw [policy_mean_eq_mlp h]
+  have hl : ∃ fn, pa_act_table.lookup name = some fn := by
+    simp only [List.mem_cons, List.not_mem_nil, or_false] at hname
+    rcases hname with rfl | rfl | rfl | rfl <;> simp [pa_act_table, lookup_cons_ite]
+  obtain ⟨fn, hfn⟩ := hl
+  refine ⟨interp fn, by simp [actOf, hfn], ?_⟩
+  cases hidden with
+  | nil => simp [mlpO, mlp]
+  | cons l t => simp [mlpO, actOf, hfn]
+
 /-- Non-vacuity of `StrInOk`: a function that agrees with Python's substring test on all keys of an Actor's parameter dict. -/
 theorem strInOk_example : StrInOk (fun a b => a == b || (a == "Dense" && b != logStdKey)) := by
   refine ⟨fun i => ?_, by decide, fun k => by simp⟩
@@ -209,9 +225,9 @@ theorem policy_ne_actor_wrong_depth :
 
 /-! ## §3 same Gaussian -/
 
-/-- The distribution the policy samples from has the actor distribution's `loc` and `scale` (= `exp log_std`). -/
-theorem same_gaussian (exp : S → S) (logStd : S) (m : V) :
-    (⟨pa_loc m, pa_scale exp logStd⟩ : Gaussian V S) = ⟨ac_loc m, ac_scale exp logStd⟩ := rfl
+/-- The distribution the policy samples from has the actor distribution's `loc` and `scale` (= leafwise `exp log_std`). -/
+theorem same_gaussian {α : Type} (exp : α → α) (logStd : List α) (m : V) :
+    (⟨pa_loc m, logStd.map (pa_scale exp)⟩ : Gaussian V (List α)) = ⟨ac_loc m, logStd.map (ac_scale exp)⟩ := rfl
 
 /-- the scale really is `exp log_std`: positive, and its logarithm is the trained parameter -/
 theorem std_is_exp_log_std (logStd : ℝ) :
@@ -221,8 +237,8 @@ theorem std_is_exp_log_std (logStd : ℝ) :
 
 /-- `Policy.apply_actor` without rng returns the mean of the Actor's distribution; with an rng it returns
 `pi.sample(seed=rng)` of the Actor's distribution `pi` (same `loc`, same `scale`, same key). -/
-theorem apply_actor_eq_actor {strIn} (h : StrInOk strIn) (dense : L → V → V) (interp : String → V → V)
-    (sample : Gaussian V S → ρ → V) (exp : S → S) (name : String) (hidden : List L) (out : L) (ls : S) (x : V) :
+theorem apply_actor_eq_actor {α : Type} {strIn} (h : StrInOk strIn) (dense : L → V → V) (interp : String → V → V)
+    (sample : Gaussian V (List α) → ρ → V) (exp : α → α) (name : String) (hidden : List L) (out : L) (ls : List α) (x : V) :
     applyActor strIn dense interp sample exp name ⟨hidden ++ [out], ls⟩ x none =
         (actorPi dense interp exp name ⟨hidden ++ [out], ls⟩ (hidden.length : Int) x).map (·.loc) ∧
     ∀ r : ρ, applyActor strIn dense interp sample exp name ⟨hidden ++ [out], ls⟩ x (some r) =
@@ -231,7 +247,9 @@ theorem apply_actor_eq_actor {strIn} (h : StrInOk strIn) (dense : L → V → V)
   cases actorMean dense interp name ⟨hidden ++ [out], ls⟩ (hidden.length : Int) x with
   | none => simp
   | some m =>
-    simp [policyHead, pa_use_rng, pa_return, pa_det, pa_sampled, pa_loc, pa_scale, ac_return, ac_loc, ac_scale]
+    have hg := same_gaussian (V := V) exp ls m
+    simp only [pa_loc, ac_loc] at hg
+    simp [policyHead, pa_use_rng, pa_return, pa_det, pa_sampled, pa_loc, ac_return, ac_loc, hg]
 
 /-! ## §4 `get_action` = the training-time paths -/
 
@@ -371,7 +389,8 @@ example : (0 : ℚ) ≤ 10 ∧ (-2 : ℚ) ≤ 1 := by norm_num
 /-! ## §6 `PPOResult.policy` → `Policy` wiring -/
 
 /-- The exported policy is built from the configuration fields the Actor was built with in `train`, from the parameter
-tree the train state was created with, from the aux entries the wrappers wrote, and always with the gaussian head. -/
+tree the train state was created with, from the aux entries the wrappers wrote (the action scaling is vectorised over the
+environments: the first environment's row `x[..., 0, :]` is selected), and always with the gaussian head. -/
 theorem policy_wiring :
     pr_hidden_activation = "self" :: tr_actor_hidden_activation ∧
     pr_state_independent_std = "self" :: tr_actor_state_independent_std ∧
@@ -379,7 +398,8 @@ theorem policy_wiring :
     pr_model = ["self", "runner_state", "train_state", "params", "['params']"] ∧
     tr_train_state_params = ["network_params"] ∧
     pr_obs_scaling = ["self", "obs_scaling"] ∧ [pr_obs_key] = wr_obs_keys ∧
-    pr_act_scaling = ["self", "act_scaling"] ∧ [pr_act_key] = wr_act_keys := by
-  refine ⟨rfl, rfl, rfl, rfl, rfl, rfl, rfl, rfl, rfl⟩
+    pr_act_scaling = ["self", "act_scaling"] ∧ [pr_act_key] = wr_act_keys ∧
+    pr_act_select = "x[..., 0, :]" := by
+  refine ⟨rfl, rfl, rfl, rfl, rfl, rfl, rfl, rfl, rfl, rfl⟩
 
 end Rex.C20
